@@ -509,26 +509,68 @@ func init() {
 			r.Check(v.Op == "extract" && v.Args[0].IsCall("keeper.Keeper.GetAllianceValidator") && v.Args[0].CallArgsT()[2].String() == "$valAddr", k, "validator of this iteration", "GetAllianceValidator(valAddr)", "closure settles "+v.String(), r.P(cv[0]))
 			as := argT(cfa, sn[0], 1)
 			// the stored record is identified by its role: the variable that receives GetAssetByDenom(update.Denom)
-			var storedAlloc *ssa.Alloc
-			for _, g := range CallsTo(fn, "keeper.Keeper.GetAssetByDenom") {
-				for _, b := range fn.Blocks {
-					for _, in := range b.Instrs {
-						if st, ok := in.(*ssa.Store); ok {
-							if ex, ok := st.Val.(*ssa.Extract); ok && ex.Index == 0 && ex.Tuple == g.Value() {
-								storedAlloc, _ = st.Addr.(*ssa.Alloc)
+			// (possibly through whole-value copies: a helper that takes the asset by value and is inlined)
+			isLookup := func(v ssa.Value) bool {
+				ex, ok := v.(*ssa.Extract)
+				if !ok || ex.Index != 0 {
+					return false
+				}
+				c, ok := ex.Tuple.(*ssa.Call)
+				return ok && CalleeKey(c.Common()) == "keeper.Keeper.GetAssetByDenom"
+			}
+			copies := map[*ssa.Alloc]bool{} // variables that hold the looked-up record
+			var fromLookup func(v ssa.Value, depth int) bool
+			fromLookup = func(v ssa.Value, depth int) bool {
+				if depth > 4 {
+					return false
+				}
+				if isLookup(v) {
+					return true
+				}
+				if u, ok := v.(*ssa.UnOp); ok && u.Op == token.MUL {
+					if al, ok := u.X.(*ssa.Alloc); ok {
+						// every whole-value store into the variable comes from the lookup
+						n, okAll := 0, true
+						for _, ref := range *al.Referrers() {
+							if st, ok := ref.(*ssa.Store); ok && st.Addr == ssa.Value(al) {
+								n++
+								if !fromLookup(st.Val, depth+1) {
+									okAll = false
+								}
 							}
+						}
+						if n > 0 && okAll {
+							copies[al] = true
+							return true
 						}
 					}
 				}
+				return false
 			}
+			var storedAlloc *ssa.Alloc
 			okAs := false
-			if as.Op == "deref" && len(as.Args) == 1 && as.Args[0].Op == "fv" && storedAlloc != nil {
+			if as.Op == "deref" && len(as.Args) == 1 && as.Args[0].Op == "fv" {
 				for _, b := range fn.Blocks {
 					for _, in := range b.Instrs {
 						if mc, ok := in.(*ssa.MakeClosure); ok && mc.Fn == ssa.Value(cl) {
 							for i, fv := range cl.FreeVars {
-								if fv.Name() == as.Args[0].Name && i < len(mc.Bindings) && mc.Bindings[i] == ssa.Value(storedAlloc) {
-									okAs = true
+								if fv.Name() == as.Args[0].Name && i < len(mc.Bindings) {
+									if al, ok := mc.Bindings[i].(*ssa.Alloc); ok {
+										n, okAll := 0, true
+										for _, ref := range *al.Referrers() {
+											if st, ok := ref.(*ssa.Store); ok && st.Addr == ssa.Value(al) {
+												n++
+												if !fromLookup(st.Val, 0) {
+													okAll = false
+												}
+											}
+										}
+										if n > 0 && okAll {
+											okAs = true
+											storedAlloc = al
+											copies[al] = true
+										}
+									}
 								}
 							}
 						}
@@ -543,7 +585,7 @@ func init() {
 				for _, b := range fn.Blocks {
 					for _, in := range b.Instrs {
 						if st, ok := in.(*ssa.Store); ok {
-							if al, ok := rootAlloc(st.Addr); ok && al == storedAlloc {
+							if al, ok := rootAlloc(st.Addr); ok && (al == storedAlloc || copies[al]) {
 								if _, isF := st.Addr.(*ssa.FieldAddr); isF && fa.Reaches(st, it[0]) {
 									okW = false
 								}
